@@ -273,6 +273,15 @@ func (s *c11State) genQuery() *c11Query {
 			}
 		}
 	}
+	for _, j := range q.joins {
+		for _, side := range [][2]int{{j[0], j[1]}, {j[2], j[3]}} {
+			for _, row := range s.tabs[q.tables[side[0]]].Rows {
+				if row[side[1]].Null {
+					tags["null-join-key"] = true
+				}
+			}
+		}
+	}
 	for t := range tags {
 		q.tags = append(q.tags, t)
 	}
